@@ -74,6 +74,7 @@ type lifeScenario struct {
 	LongSession    bool          // the lifecycle action comes only after 26-30 simulated seconds: connections that stay silent are closed by the server's idle limit first
 	ManyClients    bool          // some 300 short-lived connections before the lifecycle action
 	Epoch          bool          // one connection that has been answered more than 65536 times when the lifecycle action finds its next request in the handler
+	OwnCloseErr    bool          // the listener's Accept answers with an error of its own once it is closed (as in-memory listeners do), not net.ErrClosed
 	SameAddr       bool          // every connection reports the same remote address (as on a net.Pipe or unix-socket listener): callbacks cannot tell connections apart, per-connection callback oracles become totals
 	Race           bool
 }
@@ -261,6 +262,7 @@ func genC17(t *Tape) *lifeScenario {
 	sc.WriteDelay = []time.Duration{0, 0, time.Millisecond, 15 * time.Millisecond}[t.Choose(4)]
 	sc.DoubleCloseErr = t.Choose(2) == 1
 	sc.SameAddr = t.Choose(5) == 0
+	sc.OwnCloseErr = t.Choose(4) == 0
 	if !sc.ManyClients && t.Chance(1, 40) {
 		sc.LongSession = true
 		sc.Trigger, sc.TriggerDelay = "time", 0
@@ -391,6 +393,9 @@ func runLife(rc *RunCtx, sc *lifeScenario, seed uint64) *lifeOutcome {
 	defer s.Activate()()
 
 	ln := NewListener(s, "L")
+	if sc.OwnCloseErr {
+		ln.ClosedErr = errors.New("closed") // what grpc's bufconn listener answers
+	}
 	ln.ConnSetup = func(cl, sv *Conn) {
 		sv.DoubleCloseErr = sc.DoubleCloseErr
 		if sc.SameAddr && !strings.HasPrefix(cl.Name, "M-") {
@@ -651,6 +656,7 @@ func runLife(rc *RunCtx, sc *lifeScenario, seed uint64) *lifeOutcome {
 			out.Serve2 = obs
 			out.mu.Unlock()
 			ln2 := NewListener(s, "M")
+			ln2.ClosedErr = ln.ClosedErr
 			ctx2, cancel2 := context.WithCancel(context.Background())
 			defer cancel2()
 			var ret2 atomic.Bool
